@@ -919,6 +919,9 @@ func (app *App) calcActiveNodesChanges(clusterState map[string]*nodestate.NodeSt
 		}
 	}
 	becomeActive = filterOut(filterOut(activeNodes, syncReplicas), deadReplicas)
+	// master with a leftover replication channel (e.g. after a failed switchover) has a slave status too,
+	// but it must never be turned into a semi-sync replica
+	becomeActive = filterOut(becomeActive, []string{master})
 	becomeInactive = filterOut(syncReplicas, activeNodes)
 
 	if len(oldActiveNodes) == 1 && oldActiveNodes[0] == master && len(becomeActive) == 0 {
@@ -1844,6 +1847,19 @@ func (app *App) repairCluster(clusterState, clusterStateDcs map[string]*nodestat
 func (app *App) repairMasterNode(masterNode *mysql.Node, clusterState, clusterStateDcs map[string]*nodestate.NodeState) {
 	host := masterNode.Host()
 	masterState := clusterState[host]
+
+	// a switchover which failed after old master was turned to the candidate leaves the (still recorded)
+	// master with that replication channel: it is taken for a replica everywhere below
+	if masterState.SlaveState != nil {
+		app.logger.Warn().Msgf("repair: master %s has replication channel from %s, resetting it", host, masterState.SlaveState.MasterHost)
+		err := masterNode.StopSlave()
+		if err == nil {
+			err = masterNode.ResetSlaveAll()
+		}
+		if err != nil {
+			app.logger.Error().Err(err).Msgf("repair: failed to reset replication on master %s", host)
+		}
+	}
 
 	// enter read-only if disk is full
 	app.repairReadOnlyOnMaster(masterNode, masterState, clusterStateDcs)
